@@ -21,6 +21,8 @@ def py_children(x):
     """Children by Python structure (independent of optree) or None for non-containers."""
     if isinstance(x, U.Node):
         return x.children
+    if hasattr(type(x), '__optree_dataclass_fields__'):
+        return [getattr(x, n) for n in type(x).__optree_dataclass_fields__[0]]
     if isinstance(x, dict):
         return list(dict.values(x))
     if isinstance(x, (tuple, list, deque)):
@@ -44,6 +46,9 @@ def clone(x):
     """Structural copy sharing leaves, keys and aux (for before/after comparisons)."""
     if isinstance(x, U.Node):
         return type(x)([clone(c) for c in x.children], x.aux)
+    if hasattr(type(x), '__optree_dataclass_fields__'):
+        import dataclasses as _dc
+        return type(x)(**{f.name: (clone(getattr(x, f.name)) if f.name in type(x).__optree_dataclass_fields__[0] else getattr(x, f.name)) for f in _dc.fields(x)})
     if isinstance(x, defaultdict):
         return defaultdict(x.default_factory, [(k, clone(v)) for k, v in dict.items(x)])
     if isinstance(x, OrderedDict):
